@@ -40,6 +40,12 @@ def main():
             ts = t0 - (NOW - case["atime"][i - 1]) * D
             for fn in os.listdir(dirs[i]): os.utime(os.path.join(dirs[i], fn), (ts, ts))
             os.utime(dirs[i], (ts, ts))
+        # an entry whose writer was killed before the rename: same directory, same bytes, no output.pkl (only the temporary file)
+        inc = case.get("incomplete") or 0
+        if inc:
+            os.rename(os.path.join(dirs[inc], "output.pkl"), os.path.join(dirs[inc], "output.pkl.thread-1-pid-1"))
+            ts = t0 - (NOW - case["atime"][inc - 1]) * D
+            os.utime(dirs[inc], (ts, ts))
         kw = {}
         if case["bytes"] != -1: kw["bytes_limit"] = ("%dK" % case["bytes"]) if case.get("str") else case["bytes"] * U
         if case["items"] != -1: kw["items_limit"] = case["items"]
@@ -47,7 +53,7 @@ def main():
         rec = {}
         try:
             mem.reduce_size(**kw)
-            evicted = sorted(i for i in dirs if not os.path.exists(os.path.join(dirs[i], "output.pkl")))
+            evicted = sorted(i for i in dirs if not os.path.exists(os.path.join(dirs[i], "output.pkl" if i != inc else "output.pkl.thread-1-pid-1")))
             partial = sorted(i for i in dirs if os.path.exists(dirs[i]) and i in evicted)
             rec["evicted"] = evicted; rec["leftover_dirs"] = partial
             # survivors stay loadable, evicted ones are recomputed on demand
@@ -56,7 +62,7 @@ def main():
                 c0 = count[0]; v = g(i); ex = count[0] - c0
                 if v != ("value", i): bad.append(["wrong_value", i])
                 if i in evicted and ex != 1: bad.append(["evicted_not_recomputed", i])
-                if i not in evicted and case["size"][i - 1] > 0 and ex != 0: bad.append(["survivor_recomputed", i])
+                if i not in evicted and i != inc and case["size"][i - 1] > 0 and ex != 0: bad.append(["survivor_recomputed", i])
             rec["after"] = bad
         except BaseException as e:
             rec["exc"] = type(e).__name__; rec["msg"] = str(e)[:200]
